@@ -439,3 +439,48 @@ def check_consumer(chk, prefix, want=("C03", "C05", "C06", "C01")):
     for k_ in eng.stats:
         chk.engine_stats[k_] = chk.engine_stats.get(k_, 0) + eng.stats[k_]
     return eng
+
+
+def size_function_contract(chk, prefix="C05"):
+    """_calculate_operation_size: 0 for an empty checkpoint, otherwise the UTF-8 byte length of the JSON text of the update's wire dict (the
+    quantity the API limit is about).  json / encode / len are opaque; the obligation pins which value is measured."""
+    class H(Hooks):
+        def ext_call(self, eng, st, name, args, kwargs):
+            if name == "json.dumps":
+                st.emit("dumps", arg=args[0], kwargs=dict(kwargs))
+                return [("val", fresh("str", "json_text"), st)]
+            return None
+
+        def len_of(self, eng, st, v):
+            if isinstance(v, tuple) and v and v[0] == "bytes_of":
+                n = z3.Function("utf8_len", z3.StringSort(), z3.IntSort())(ops.zstr(v[1]))
+                st.assume(n >= 0)
+                st.emit("len_bytes", of=v[1])
+                return [("val", Sym("int", n), st)]
+            return Hooks.len_of(self, eng, st, v)
+    eng = Engine(hooks=H())
+    P = eng.program
+    q = "state.ExecutionState._calculate_operation_size"
+    chk.function(q, "verified (json.dumps / str.encode / len opaque)")
+
+    def to_dict(eng_, s, args, kwargs):
+        d = s.alloc("dict", {"__kind__": "dict", "e": {}, "open": True})
+        s.emit("to_dict", of=args[0], result=d)
+        return [("val", d, s)]
+    eng.summaries["lambda_service.OperationUpdate.to_dict"] = to_dict
+    st = St()
+    upd = eng.sym_of_type("OperationUpdate", "u", st, P.modules["lambda_service"])
+    qop = st.alloc(P.cls("state.QueuedOperation"), {"operation_update": mk_opt(z3.Bool("u.none"), upd), "completion_event": None})
+    for k, v, s in eng.run(P.func(q), [qop], st=st):
+        chk.paths += 1
+        td = [e for e in s.trace if e.kind == "to_dict"]
+        dm = [e for e in s.trace if e.kind == "dumps"]
+        lb = [e for e in s.trace if e.kind == "len_bytes"]
+        if not td:
+            goal = z3.And(z3.BoolVal(k == "val" and v == 0), z3.Bool("u.none"))
+        else:
+            ok = k == "val" and len(td) == 1 and len(dm) == 1 and len(lb) == 1 and td[0].of == upd and dm[0].arg == td[0].result
+            goal = z3.And(z3.BoolVal(ok), z3.Not(z3.Bool("u.none")))
+            if ok:
+                goal = z3.And(goal, ops.values_equal(s, v, Sym("int", z3.Function("utf8_len", z3.StringSort(), z3.IntSort())(ops.zstr(lb[0].of)))))
+        chk.prove(f"{prefix}.collect.size_function", s.pc, goal, desc="the size of a queued operation is 0 for an empty checkpoint and otherwise the UTF-8 length of json.dumps(update.to_dict())")
